@@ -1442,10 +1442,31 @@ def compile_template(
     return template
 
 
+def _needs_parentheses(template: str, slot: str, code: str) -> bool:
+    """Whether code must be parenthesized to remain a single operand when it replaces slot."""
+    probe = re.sub(r"\{\{\w+\}\}", "_", template.replace(slot, "\0"))
+    try:
+        grouped = ast.parse(textwrap.dedent(probe.replace("\0", f"({code})")))
+    except (SyntaxError, ValueError):
+        return False
+
+    try:
+        plain = ast.parse(textwrap.dedent(probe.replace("\0", code)))
+    except (SyntaxError, ValueError):
+        return True
+
+    return ast.dump(plain) != ast.dump(grouped)
+
+
 def format_template(source: str, template_match: NamedTuple, **callables) -> str:
     template_match_asdict = template_match._asdict() if hasattr(template_match, "_asdict") else {}
     for name, value in template_match_asdict.items():
-        source = source.replace("{{" + name + "}}", unparse(value))
+        slot = "{{" + name + "}}"
+        code = unparse(value)
+        if slot in source and isinstance(value, ast.expr) and _needs_parentheses(source, slot, code):
+            code = f"({code})"
+
+        source = source.replace(slot, code)
 
     # It's ok that some of the template_match isn't used, just like str.format()
     # may not use all of the arguments.
